@@ -29,6 +29,9 @@ def mstep (m : MState) (op : SOp) (cap' : Int) : M (MState × Out × List String
   | .feed bs => do
       let (d, ob, _) ← (DState.mk m.c m.backlog).step (.feed bs cap')
       pure ({ c := d.c, backlog := d.backlog }, .out ob.out, if d.c.buf.cap ≠ m.c.buf.cap then ["write-grow"] else [])
+  | .commit n => do
+      let (d, ob, _) ← (DState.mk m.c m.backlog).step (.commit n)
+      pure ({ c := d.c, backlog := d.backlog }, .out ob.out, if d.c.buf.ri ≠ m.c.buf.ri then ["caller-commit"] else [])
   | .read bs => do
       let (d, ob, _) ← (DState.mk m.c m.backlog).step (.read bs)
       let bl := m.backlog ++ bs
